@@ -419,18 +419,22 @@ def run(ctx):
     plans = [Plan(p, c, random.Random(f"base:{' '.join(p)}")) for p, c in cmds]
     st = _worker_state()
     try:
-        check_metadata(ctx, plans)
-        check_template(ctx, plans)
-        check_extra_defaults(ctx, plans, rng)
-        check_unprovidable(ctx, plans)
-        check_matrix(ctx, plans, rng)
-        check_tree(ctx, plans, rng)
-        check_codecs(ctx, plans)
-        check_keys(ctx, plans)
-        check_getvalue(ctx, rng)
-        check_template_doc(ctx, plans)
-        check_discovery(ctx, rng)
-        check_rerun(ctx, plans, rng)
+        steps = [(check_metadata, (ctx, plans)), (check_template, (ctx, plans)), (check_getvalue, (ctx, rng)), (check_codecs, (ctx, plans)),
+                 (check_keys, (ctx, plans)), (check_template_doc, (ctx, plans)), (check_discovery, (ctx, rng)),
+                 (check_extra_defaults, (ctx, plans, rng)), (check_unprovidable, (ctx, plans)), (check_matrix, (ctx, plans, rng)),
+                 (check_tree, (ctx, plans, rng)), (check_rerun, (ctx, plans, rng))]
+        for f, args in steps:
+            try:
+                f(*args)
+            except Exception as e:  # noqa: BLE001
+                # the implementation raised where the harness expects an answer: the other parts still run and look for the input
+                import traceback
+
+                tb = traceback.format_exc()
+                ctx.disagree(f"part-aborted:{f.__name__}:{type(e).__name__}", f"{f.__name__} aborted: {type(e).__name__}: {str(e)[:200]}",
+                             {"part": f.__name__, "traceback": tb[-1500:]}, impl=f"{type(e).__name__}: {e}"[:300], model="an answer",
+                             spec_violated=False, site=tb.strip().splitlines()[-3].strip()[:200] if len(tb.strip().splitlines()) >= 3 else "")
+                st["sb"].set({}, {})
     finally:
         st["sb"].set({}, {})
 
@@ -1130,7 +1134,9 @@ def check_getvalue(ctx, rng):
         for k in sorted(keys):
             lines.append(f"gv {L.tree_tok(doc)} {L.thex(k) or '-'}")
             meta.append((doc, k))
-    for (doc, k), mo in zip(meta, ctx.lean(lines)):
+    n_bad = 0
+    # smallest documents first: the first disagreement reported is a small one
+    for (doc, k), mo in sorted(zip(meta, ctx.lean(lines)), key=lambda x: (len(L.tree_tok(x[0][0])) + len(x[0][1]), x[0][1])):
         try:
             v = Config(doc).get_value(k)
             impl = "none" if v is None else L.tree_tok(v)
@@ -1140,7 +1146,8 @@ def check_getvalue(ctx, rng):
         ctx.kind("get_value:" + ("absent" if v is None else "table" if isinstance(v, dict) else "falsy" if not v else "value"))
         if v is not None:
             ctx.nontrivial(("gv", L.tree_tok(doc), k))
-        if impl != mo:
+        if impl != mo and n_bad < 5:
+            n_bad += 1
             ctx.disagree(f"get-value:{'falsy' if (mo != 'none' and impl == 'none') else impl if impl.startswith('raises') else 'other'}:{k!r}",
                          f"Config.get_value({k!r}) on {doc!r}: implementation {impl if v is None else repr(v)}, model {mo}", {"doc": doc, "key": k},
                          impl=impl, model=mo, spec_violated=(mo != "none" and impl == "none") or impl.startswith("raises"),
